@@ -204,8 +204,47 @@ def main(argv):
                                      'with_copies_of_2plus_queues_in_flight': sum(1 for c in copies if c.get('in_flight_together', 0) >= 2),
                                      'zero_byte_copies': sum(1 for c in copies for p in c['progs'] for o in p if o['op'] in ('h2d', 'd2h') and not o.get('n')),
                                      'failures': len(cbad)}
+    # ---- hand-ticked histories over the model's command kinds (no-op, kernel, zero-byte copy): tick-exact correspondence
+    hands, hmism, hok = [], [], True
+    if not replay_file or (src and src[0].get('hand')):
+        if replay_file:
+            inp = os.path.join(vlib.BUILD, 'c12_%d.hand.json' % os.getpid())
+            json.dump(src, open(inp, 'w'))
+            hands, log = run_impl(binary, ['--replay', inp])
+            os.remove(inp)
+        else:
+            hands, log = run_impl(binary, ['--hand', '1500' if thorough else '150', '--seed', str(vlib.seed())])
+        if hands is None:
+            rep.obligation('hand-ticked run', False)
+            rep.violation({'broken': 'harness hand-ticked run failed', 'log': log[-4000:]}, nofail=True,
+                          text='harness hand-ticked run failed: ' + (log.strip().split('\n') or [''])[0][:200])
+            return rep.finish()
+        for h in hands:
+            m = ('the driver panicked in a hand-ticked run: %s' % h['panic'] if h.get('panic') else
+                 'DrainCommandQueue never returns: ' + h['stuck'] if h.get('stuck') else None)
+            if m:
+                cbad.append((h, m))
+        comp = [h for h in hands if not h.get('not_comparable')]
+        hok, hmism, hlog = vlib.eval_cases(PROP, HEADER, [h['coq'] for h in comp], shard_size=40, checker='hand_mismatches')
+        rep.obligation('correspondence (hand-ticked driver): %d histories, %d Tick calls and GPU answers over no-op, kernel and '
+                       'zero-byte-copy commands in 1-3 queues / 1-2 contexts agree with the model tick by tick (queue lengths, '
+                       'heads, IsRunning, requests in flight, Tick result)' % (len(comp), sum(len(h['events']) for h in comp)),
+                       hok and not hmism)
+        rep.coverage['hand_mode'] = {'histories': len(hands), 'comparable': len(comp), 'events': sum(len(h['events']) for h in comp),
+                                     'zero_byte_copies': sum(1 for h in comp for p in h['progs'] for o in p if o['k'] in ('h2d0', 'd2h0')),
+                                     'mismatches': len(hmism)}
+        if not cbad and (hmism or not hok):
+            i, k = hmism[0] if hmism else (0, 0)
+            hc = dict(comp[i]) if comp else {}
+            hc.pop('coq', None)
+            rep.violation({'property': PROP, 'broken': 'correspondence between coq/drv/Handoff.v (hand_tick) and the hand-ticked driver: '
+                           'event %d of history %d differs' % (k, i), 'case': [hc], 'first_diverging_event': k, 'log': hlog[-2000:]},
+                          nofail=True, text='model/implementation mismatch at hand-ticked history %d event %d' % (i, k))
+            return rep.finish()
     if cbad:
         c, msg = cbad[0]
+        c = dict(c)
+        c.pop('coq', None)
         rep.violation({'property': PROP, 'what': msg, 'case': [c],
                        'replay_cmd': 'VERIF_REPO=<tree> ./check C12 --replay <this file>'}, text=msg)
         return rep.finish()
